@@ -188,6 +188,21 @@ func (rngdata *RangeNamespaceData) verifyShares(
 			return fmt.Errorf("empty shares at row %d", i)
 		}
 	}
+	// Whether an incomplete-row proof accompanies the first/last row is determined by the
+	// requested range, exactly as RangeNamespaceDataFromShares decides it. It must not be
+	// left to the responder: a row without a proof is verified as a complete row, so a
+	// missing (or superfluous) proof would let the data be re-sliced across rows.
+	isMultiRow := len(shares) > 1
+	startsMidRow := from.Col != 0
+	endsMidRow := to.Col != odsSize-1
+	needFirstProof := startsMidRow || (!isMultiRow && endsMidRow)
+	needLastProof := endsMidRow && isMultiRow
+	if (rngdata.FirstIncompleteRowProof != nil) != needFirstProof {
+		return fmt.Errorf("first row proof presence mismatch: expected %t for range %v-%v", needFirstProof, from, to)
+	}
+	if (rngdata.LastIncompleteRowProof != nil) != needLastProof {
+		return fmt.Errorf("last row proof presence mismatch: expected %t for range %v-%v", needLastProof, from, to)
+	}
 	if rngdata.FirstIncompleteRowProof != nil && rngdata.FirstIncompleteRowProof.Start() != from.Col {
 		return fmt.Errorf(
 			"first col share index mismatch: expected %d vs got %d", from.Col, rngdata.FirstIncompleteRowProof.Start(),
